@@ -90,7 +90,7 @@ CHECKS = {
         "kinds, 5 method families), "
         "each instance universal over t0, tf, dt0: FailedIntegration with the injected cause (KeyboardInterrupt as itself), status, recorded rows = prefix of the fault-free twin run, "
         "dense output one piece per recorded step, resume reaches tf with the prefix intact, every piece of the resumed run has end slopes f(recorded state) (all families) and equals the uninterrupted run's (fixed step), "
-        "reset() restores a pristine system; value faults (rhs returns NaN, then reset and re-run equals a fresh run) and a diverging stage solve (the call recovers by retrying or a second integrate() continues to the target).",
+        "reset() restores a pristine system; value faults (rhs returns NaN, then reset and re-run equals a fresh run) and a diverging stage solve (the call recovers by retrying or a second integrate() continues to the target); a QF_FP corner for Richardson wrappers (half steps that do not land on fl(t+h)) is run on the real float64 code.",
         "DESIGN.md 3/C12", "N = 2 (quick) / 3 + two successive faults (thorough). Event-function faults run the real handle_events with the root finder stubbed. Known finding c12.valueerror_swallowed_by_retry."),
     "C13": _entry("other",
         "All operation sequences up to the length bound over {integrate, integrate(T), set dt/tol/method, set_kick_vars, integrate with an event, faulting integrate, reset} with symbolic "
